@@ -112,6 +112,67 @@ def program_tree(edited=False):
     return files
 
 
+def _state_between_runs(rep, session, dirs):
+    """P10 / P11 (see program())."""
+    from ..genabs import absint as _gabs
+
+    def edited_tree():
+        return program_tree(True)
+    fresh = [o for o in run_program(session, edited_tree, order=dirs, runs=1, fresh_output=True)]
+    both = [o for o in run_program(session, [program_tree, edited_tree], order=dirs, runs=2, fresh_output=True)]
+    rep.count("edited-specification evaluations", len(fresh) + len(both))
+    rejected = [o for o in fresh if o.rejected]
+    for o in rejected:
+        rep.ob("C18.P1 generator-succeeds-on-a-valid-tree", "generate() over the edited 7-directory tree, path[%s]" % o.path(), False,
+               "rejected with %s at %s" % (o.exc, o.exc_site), key="C18.P1 | edited tree")
+    if rejected:
+        return
+    if len(fresh) != 1:
+        # several paths (symbolic names forking somewhere): which path of the two-run evaluation corresponds to which fresh
+        # path is not worked out -- undecided unless something else is wrong with this tree
+        _gabs.TRUNCATED.append("C18.P10/P11: the edited reference tree is generated on %d paths; the second run is not compared" % len(fresh))
+        return
+    want = {f["path"]: f["content"] for f in fresh[0].value[0].files}
+    for o in both:
+        inst = "generate() twice on one instance, the 7-directory tree edited in between, path[%s]" % o.path()
+        if o.rejected:
+            rep.ob("C18.P10 no-state-carried-from-one-run's-XML-to-the-next", inst, False,
+                   "the second run is rejected with %s at %s although a fresh generator accepts the edited tree" % (o.exc, o.exc_site))
+            continue
+        got = {f["path"]: f["content"] for f in o.value[1].files}
+        rep.ob("C18.P10 no-state-carried-from-one-run's-XML-to-the-next", inst, got == want,
+               _diff_files(want, got) or "%d files, identical to a fresh generator's output for the edited tree" % len(want))
+    rep.floor("edited-specification evaluations", 2)
+    # P11: ... nor from a run that failed: the first run meets an ill-formed tree (a struct field of an undeclared type:
+    # the error comes during emission, after indexing has filled the generator's tables), the caller catches the
+    # error, repairs the specification and runs the same generator again
+    def broken_tree():
+        files = program_tree()
+        files["pub"].children.append(Elem("struct", {"name": "BrokenByTheEdit"}, [Elem("field", {"name": "f", "type": "NoSuchType"})]))
+        return files
+    after = run_program(session, [broken_tree, edited_tree], order=dirs, runs=2, fresh_output=True, keep_going=True)
+    rep.count("failed-run evaluations", len(after))
+    n_failed_first = 0
+    for o in after:
+        inst = "generate() on an ill-formed tree (caught), then on the repaired tree with the same instance, path[%s]" % o.path()
+        if o.rejected:
+            rep.ob("C18.P11 no-state-carried-over-from-a-failed-run", inst, False,
+                   "the second run is rejected with %s at %s although a fresh generator accepts the repaired tree" % (o.exc, o.exc_site))
+            continue
+        first, second = o.value
+        if not (isinstance(first, tuple) and first[0] == "raised"):
+            raise AnalysisError("C18.P11: the ill-formed reference tree is accepted (C17's business); no failed run to continue from")
+        n_failed_first += 1
+        if isinstance(second, tuple):
+            rep.ob("C18.P11 no-state-carried-over-from-a-failed-run", inst, False,
+                   "the second run raises %s although a fresh generator accepts the repaired tree" % _exc_text(second[1]))
+            continue
+        got = {f["path"]: f["content"] for f in second.files}
+        rep.ob("C18.P11 no-state-carried-over-from-a-failed-run", inst, got == want,
+               _diff_files(want, got) or "%d files, identical to a fresh generator's output for the repaired tree" % len(want))
+    rep.floor("failed-run evaluations", 1)
+
+
 def program(rep, index):
     session = Session(index)
     dirs = ["", "map", "net", "net/client", "net/server", "pub", "pub/server"]
@@ -184,51 +245,7 @@ def program(rep, index):
     # what a fresh generator writes for the edited tree
     def edited_tree():
         return program_tree(True)
-    fresh = [o for o in run_program(session, edited_tree, order=dirs, runs=1, fresh_output=True)]
-    both = [o for o in run_program(session, [program_tree, edited_tree], order=dirs, runs=2, fresh_output=True)]
-    rep.count("edited-specification evaluations", len(fresh) + len(both))
-    if len(fresh) != 1 or fresh[0].rejected:
-        raise AnalysisError("C18.P10: the edited reference tree is not generated on exactly one path (%d paths, %s)"
-                            % (len(fresh), [o.exc for o in fresh if o.rejected]))
-    want = {f["path"]: f["content"] for f in fresh[0].value[0].files}
-    for o in both:
-        inst = "generate() twice on one instance, the 7-directory tree edited in between, path[%s]" % o.path()
-        if o.rejected:
-            rep.ob("C18.P10 no-state-carried-from-one-run's-XML-to-the-next", inst, False,
-                   "the second run is rejected with %s at %s although a fresh generator accepts the edited tree" % (o.exc, o.exc_site))
-            continue
-        got = {f["path"]: f["content"] for f in o.value[1].files}
-        rep.ob("C18.P10 no-state-carried-from-one-run's-XML-to-the-next", inst, got == want,
-               _diff_files(want, got) or "%d files, identical to a fresh generator's output for the edited tree" % len(want))
-    rep.floor("edited-specification evaluations", 2)
-    # P11: ... nor from a run that failed: the first run meets an ill-formed tree (a struct field of an undeclared type:
-    # the error comes during emission, after indexing has filled the generator's tables), the caller catches the
-    # error, repairs the specification and runs the same generator again
-    def broken_tree():
-        files = program_tree()
-        files["pub"].children.append(Elem("struct", {"name": "BrokenByTheEdit"}, [Elem("field", {"name": "f", "type": "NoSuchType"})]))
-        return files
-    after = run_program(session, [broken_tree, edited_tree], order=dirs, runs=2, fresh_output=True, keep_going=True)
-    rep.count("failed-run evaluations", len(after))
-    n_failed_first = 0
-    for o in after:
-        inst = "generate() on an ill-formed tree (caught), then on the repaired tree with the same instance, path[%s]" % o.path()
-        if o.rejected:
-            rep.ob("C18.P11 no-state-carried-over-from-a-failed-run", inst, False,
-                   "the second run is rejected with %s at %s although a fresh generator accepts the repaired tree" % (o.exc, o.exc_site))
-            continue
-        first, second = o.value
-        if not (isinstance(first, tuple) and first[0] == "raised"):
-            raise AnalysisError("C18.P11: the ill-formed reference tree is accepted (C17's business); no failed run to continue from")
-        n_failed_first += 1
-        if isinstance(second, tuple):
-            rep.ob("C18.P11 no-state-carried-over-from-a-failed-run", inst, False,
-                   "the second run raises %s although a fresh generator accepts the repaired tree" % _exc_text(second[1]))
-            continue
-        got = {f["path"]: f["content"] for f in second.files}
-        rep.ob("C18.P11 no-state-carried-over-from-a-failed-run", inst, got == want,
-               _diff_files(want, got) or "%d files, identical to a fresh generator's output for the repaired tree" % len(want))
-    rep.floor("failed-run evaluations", 1)
+    _state_between_runs(rep, session, dirs)
     # P9: a set has no order -- the same tree evaluated with every set iterated in insertion order, reversed, rotated
     witness = None
     base = None
